@@ -33,17 +33,23 @@ pub struct WCfg {
     pub minbs: usize,
     pub iv: usize,
     pub levels: u8,
+    /// nothing is set on the builder: the crate's own defaults apply
+    pub dflt: bool,
 }
 
 impl Default for WCfg {
     fn default() -> WCfg {
-        WCfg { codec: 0, level: 0, bs: 8192, minbs: 1024, iv: 8, levels: 0 }
+        WCfg { codec: 0, level: 0, bs: 8192, minbs: 1024, iv: 8, levels: 0, dflt: false }
     }
 }
 
 impl WCfg {
     pub fn parse(args: &[&str]) -> WCfg {
+        if args.first().copied() == Some("default") {
+            return WCfg { dflt: true, ..WCfg::default() };
+        }
         WCfg {
+            dflt: false,
             codec: kv_arg(args, "codec", 0) as u8,
             level: kv_arg(args, "level", 0) as u32,
             bs: kv_arg(args, "bs", 8192) as usize,
@@ -54,6 +60,9 @@ impl WCfg {
     }
     pub fn builder(&self) -> WriterBuilder {
         let mut b = WriterBuilder::new();
+        if self.dflt {
+            return b;
+        }
         b.compression_type(codec_of(self.codec));
         b.compression_level(self.level);
         if self.minbs < 1024 {
